@@ -181,6 +181,10 @@ pub(crate) fn translate_block(
                 | capstone::x86_insn::X86_INS_MOVNTI
                 | capstone::x86_insn::X86_INS_MOVUPS => semantics.mov(&mut instruction_graph),
                 capstone::x86_insn::X86_INS_MOVQ => semantics.movq(&mut instruction_graph),
+                // the SSE2 scalar move shares its id with the string instruction
+                capstone::x86_insn::X86_INS_MOVSD if semantics.is_sse_movsd()? => {
+                    semantics.movsd_sse(&mut instruction_graph)
+                }
                 capstone::x86_insn::X86_INS_MOVSB
                 | capstone::x86_insn::X86_INS_MOVSW
                 | capstone::x86_insn::X86_INS_MOVSD
